@@ -1822,6 +1822,11 @@ func (bmach *Bondmachine) Write_verilog_board(conf *Config, module_name string, 
 			case "uartusb":
 				result += "\toutput TxD,\n"
 				result += "\tinput RxD,\n"
+
+				// BMAPIExtra.Get_Params builds the two lists by ranging over the mapping: put them in a
+				// fixed order before the (positional) connections of the transceiver are written
+				sort.Strings(onames)
+				sort.Strings(inames)
 			case "aximm":
 				result += "\tinput [31:0] A_DVDR_PS2PL,\n"
 				result += "\toutput [31:0] A_DVDR_PL2PS,\n"
